@@ -739,7 +739,7 @@ func TestStructValues(t *testing.T) {
 			sort.Strings(out)
 			return out
 		},
-		Quick: 30000, Thorough: 500000,
+		Quick: 30000, Thorough: 300000,
 	})
 }
 
